@@ -23,6 +23,20 @@ namespace vt
    template< typename U > struct K7 : seq< opt< U, one< '!' > >, rep_min_max< 0, 2, U > > {};  // optional inside seq; repetition
    template< typename U > struct K8 : sor< seq< U, one< '!' > >, seq< any, U >, U > {};   // optional first, optional after consumption, last alternative
 
+   // bounds contexts (C03): plain, inside the inner input of rematch, under a lowered end (limit_bytes< 2 >, family 4)
+   template< typename U > struct OB : seq< U, opt< any > > {};
+   template< typename U > struct OR : seq< opt< rematch< until< one< '!' > >, seq< opt< any >, U > > >, star< any > > {};
+   template< typename U > struct OLn : seq< U > { static constexpr int vid = 2; static constexpr int lim = 2002; };
+   template< typename U > struct OL : seq< opt< any >, opt< OLn< U > >, star< any > > {};
+
+   template< typename U >
+   void oob_all( const std::string& sigma, int maxlen )
+   {
+      cfgs_oob< OB< U > >( sigma, maxlen );
+      cfgs_oob< OR< U > >( sigma + "!", maxlen );
+      cfgs_oob4< OL< U > >( sigma, maxlen );
+   }
+
    template< typename U >
    void ctx_all( const std::string& sigma, int maxlen )
    {
